@@ -16,6 +16,7 @@ package middlewares
 
 import (
 	"net/url"
+	"strings"
 
 	"github.com/gofiber/fiber/v2"
 	"github.com/versity/versitygw/metrics"
@@ -29,6 +30,13 @@ func DecodeURL(logger s3log.AuditLogger, mm *metrics.Manager) fiber.Handler {
 		unescp, err := url.QueryUnescape(string(ctx.Request().URI().PathOriginal()))
 		if err != nil {
 			return controllers.SendResponse(ctx, s3err.GetAPIError(s3err.ErrInvalidURI), &controllers.MetaOpts{Logger: logger, MetricsMng: mm})
+		}
+		// bucket and key are joined into file system paths by the backends:
+		// "." and ".." segments must never get there
+		for _, seg := range strings.Split(unescp, "/") {
+			if seg == "." || seg == ".." {
+				return controllers.SendResponse(ctx, s3err.GetAPIError(s3err.ErrInvalidURI), &controllers.MetaOpts{Logger: logger, MetricsMng: mm})
+			}
 		}
 		ctx.Path(unescp)
 		return ctx.Next()
